@@ -170,11 +170,17 @@ func runC07(cfg *vh.Config) error {
 	if cfg.N > 0 && cfg.N < len(props) {
 		props = props[:cfg.N]
 	}
-	for _, p := range props {
-		content := p.Text()
+	isoContents := make([]map[string]string, len(props))
+	for i, p := range props {
+		isoContents[i] = p.Text()
+	}
+	isoObsAll := parallel(len(props), "iso", caseNo,
+		func(i int) any { return map[string]any{"prop": props[i].Coq(), "files": isoContents[i]} },
+		func(i int) isoObs { return observeIso(isoContents[i]) })
+	for pi, p := range props {
+		content := isoContents[pi]
 		in := map[string]any{"prop": p.Coq(), "files": content}
-		mark(caseNo, "iso", in)
-		o := observeIso(content)
+		o := isoObsAll[pi]
 		distinct.Add(content[mainFile] + content["foo/v1/types.j5s"])
 		res.Count("iso")
 		res.Count("iso_" + o.Verdict)
@@ -208,10 +214,28 @@ func runC07(cfg *vh.Config) error {
 	}
 
 	// ---- stream 2: declaration-level isolation (direct oracle)
-	for _, d := range declMatrix() {
+	decls := declMatrix()
+	type printRes struct {
+		Err error
+		Pan any
+	}
+	type declRes struct {
+		C      compiled
+		Prints []printRes
+	}
+	declAll := parallel(len(decls), "decl", caseNo,
+		func(i int) any { return map[string]any{"decl": decls[i].Name, "files": decls[i].Files} },
+		func(i int) declRes {
+			r := declRes{C: compileOnce(decls[i].Files, decls[i].Pkg)}
+			for _, f := range r.C.Files {
+				_, perr, ppan := safePrint(f)
+				r.Prints = append(r.Prints, printRes{perr, ppan})
+			}
+			return r
+		})
+	for di, d := range decls {
 		in := map[string]any{"decl": d.Name, "files": d.Files}
-		mark(caseNo, "decl", in)
-		c := compileOnce(d.Files, d.Pkg)
+		c := declAll[di].C
 		distinct.Add(fmt.Sprint(d.Files))
 		res.Count("decl")
 		switch {
@@ -231,11 +255,11 @@ func runC07(cfg *vh.Config) error {
 			res.Count("decl_ok")
 			corpus = append(corpus, d.Files)
 			// printing the result must not panic either (protoprint has explicit panic sites)
-			for _, f := range c.Files {
-				if _, perr, ppan := safePrint(f); ppan != nil {
-					res.Fail(vh.Failure{Case: caseNo, Stream: "decl", Sig: fmt.Sprintf("C07 decl %s: printer panic %s", d.Name, errClass(fmt.Sprint(ppan))), Clause: "never panics", Input: in, Got: fmt.Sprint(ppan)})
-				} else if perr != nil {
-					res.Fail(vh.Failure{Case: caseNo, Stream: "decl", Sig: fmt.Sprintf("C07 decl %s: printer error %s", d.Name, errClass(perr.Error())), Clause: "accepted", Input: in, Got: perr.Error()})
+			for _, pr := range declAll[di].Prints {
+				if pr.Pan != nil {
+					res.Fail(vh.Failure{Case: caseNo, Stream: "decl", Sig: fmt.Sprintf("C07 decl %s: printer panic %s", d.Name, errClass(fmt.Sprint(pr.Pan))), Clause: "never panics", Input: in, Got: fmt.Sprint(pr.Pan)})
+				} else if pr.Err != nil {
+					res.Fail(vh.Failure{Case: caseNo, Stream: "decl", Sig: fmt.Sprintf("C07 decl %s: printer error %s", d.Name, errClass(pr.Err.Error())), Clause: "accepted", Input: in, Got: pr.Err.Error()})
 				}
 			}
 		}
@@ -245,14 +269,26 @@ func runC07(cfg *vh.Config) error {
 	// ---- stream 3: malformed inputs (random bytes, byte flips, token mutations) through Compile and LintFile
 	rMut := cfg.R.Fork("mut")
 	nMut := cfg.Scale(700, 12000)
+	mutContents := make([]map[string]string, nMut)
+	mutHow := make([]string, nMut)
 	for i := 0; i < nMut; i++ {
-		base := vh.Pick(rMut, corpus)
-		content, how := mutate(rMut, base)
+		mutContents[i], mutHow[i] = mutate(rMut, vh.Pick(rMut, corpus))
+	}
+	type mutRes struct {
+		C compiled
+		L linted
+	}
+	mutAll := parallel(nMut, "mut", caseNo,
+		func(i int) any { return map[string]any{"mutation": mutHow[i], "files": mutContents[i]} },
+		func(i int) mutRes {
+			return mutRes{compileOnce(mutContents[i], "foo.v1"), lintOnce(mutContents[i], mainFile)}
+		})
+	for i := 0; i < nMut; i++ {
+		content, how := mutContents[i], mutHow[i]
 		in := map[string]any{"mutation": how, "files": content}
-		mark(caseNo, "mut", in)
 		distinct.Add(fmt.Sprint(content))
 		res.Count("mut")
-		c := compileOnce(content, "foo.v1")
+		c := mutAll[i].C
 		switch {
 		case c.TimedOut:
 			res.Fail(vh.Failure{Case: caseNo, Stream: "mut", Sig: "C07 malformed input: compile hangs", Clause: "never hangs", Input: in, Got: "timeout"})
@@ -265,7 +301,7 @@ func runC07(cfg *vh.Config) error {
 		default:
 			res.Count("mut_ok")
 		}
-		l := lintOnce(content, mainFile)
+		l := mutAll[i].L
 		switch {
 		case l.TimedOut:
 			res.Fail(vh.Failure{Case: caseNo, Stream: "mut", Sig: "C07 malformed input: lint hangs", Clause: "never hangs", Input: in, Got: "timeout"})
@@ -287,12 +323,29 @@ func runC07(cfg *vh.Config) error {
 	}
 
 	// ---- stream 4: structurally valid files with semantic errors
-	for _, d := range semanticErrors() {
+	sems := semanticErrors()
+	type semRes struct {
+		C     compiled
+		Lints []linted
+		All   linted
+	}
+	semAll := parallel(len(sems), "sem", caseNo,
+		func(i int) any { return map[string]any{"class": sems[i].Name, "files": sems[i].Files} },
+		func(i int) semRes {
+			r := semRes{C: compileOnce(sems[i].Files, sems[i].Pkg)}
+			for _, fn := range sortedFileNames(sems[i].Files) {
+				if strings.HasSuffix(fn, ".j5s") {
+					r.Lints = append(r.Lints, lintOnce(sems[i].Files, fn))
+				}
+			}
+			r.All = lintAllOnce(sems[i].Files)
+			return r
+		})
+	for si, d := range sems {
 		in := map[string]any{"class": d.Name, "files": d.Files}
-		mark(caseNo, "sem", in)
 		distinct.Add(fmt.Sprint(d.Files))
 		res.Count("sem")
-		c := compileOnce(d.Files, d.Pkg)
+		c := semAll[si].C
 		switch {
 		case c.TimedOut:
 			res.Fail(vh.Failure{Case: caseNo, Stream: "sem", Sig: "C07 semantic error " + d.Name + ": hang", Clause: "never hangs", Input: in, Got: "timeout"})
@@ -307,18 +360,14 @@ func runC07(cfg *vh.Config) error {
 				res.Fail(vh.Failure{Case: caseNo, Stream: "sem", Sig: "C07 semantic error " + d.Name + ": accepted", Clause: "returns descriptors or errors (an invalid file is not silently accepted)", Input: in, Got: "compiled"})
 			}
 		}
-		for _, fn := range sortedFileNames(d.Files) {
-			if !strings.HasSuffix(fn, ".j5s") {
-				continue
-			}
-			l := lintOnce(d.Files, fn)
+		for _, l := range semAll[si].Lints {
 			if l.Panic != nil {
 				res.Fail(vh.Failure{Case: caseNo, Stream: "sem", Sig: fmt.Sprintf("C07 semantic error %s: lint panic %s", d.Name, errClass(fmt.Sprint(l.Panic))), Clause: "never panics (lint path)", Input: in, Got: fmt.Sprint(l.Panic)})
 			} else if l.TimedOut {
 				res.Fail(vh.Failure{Case: caseNo, Stream: "sem", Sig: "C07 semantic error " + d.Name + ": lint hangs", Clause: "never hangs", Input: in, Got: "timeout"})
 			}
 		}
-		la := lintAllOnce(d.Files)
+		la := semAll[si].All
 		if la.Panic != nil {
 			res.Fail(vh.Failure{Case: caseNo, Stream: "sem", Sig: fmt.Sprintf("C07 semantic error %s: LintAll panic %s", d.Name, errClass(fmt.Sprint(la.Panic))), Clause: "never panics (lint path)", Input: in, Got: fmt.Sprint(la.Panic)})
 		}
